@@ -52,7 +52,7 @@ package pdf
 //@   requires len(buf) <= 8
 //@   loop 1: invariant 0 <= res && res < pow256(\done)
 //@   loop 1: invariant res == beVal(buf, \done)
-//@   ensures err == nil ==> res == beVal(buf, len(buf))
+//@   ensures err == nil ==> res == beVal(buf, len(buf)) && res >= 0
 //@   ensures err != nil ==> beVal(buf, len(buf)) > 9223372036854775807
 //@ spec func pow256(k int) int = k <= 0 ? 1 : k == 1 ? 256 : k == 2 ? 65536 : k == 3 ? 16777216 : k == 4 ? 4294967296 : k == 5 ? 1099511627776 : k == 6 ? 281474976710656 : k == 7 ? 72057594037927936 : 18446744073709551616
 //@ spec rec func beVal(b seq, k int) int = k <= 0 ? 0 : beVal(b, k-1) * 256 + b[k-1]
@@ -407,3 +407,193 @@ package pdf
 //@   ensures old(s.enc) == nil ==> (err != nil && !malformed(err) ==> s.src.fails)
 //@   ensures err != io.EOF && err != io.ErrUnexpectedEOF
 //@   ensures err == nil ==> ref % 4294967296 < 16777216
+
+// ---- cross-reference streams (7.5.8) ----
+//@ func checkXRefStreamDict (dict, rawLen) (w, ss, err)
+//@   tags C04 C05
+//@   assigns nothing
+//@   ensures err != nil ==> malformed(err)
+//@   ensures err == nil ==> len(w) == 3 && w[0] + w[1] + w[2] > 0
+//@   ensures err == nil ==> forall i in 0..3 :: 0 <= w[i] && w[i] <= 8
+//@   ensures err == nil ==> forall k in 0..len(ss) :: ss[k] != nil && ss[k].Start + ss[k].Size <= 16777216
+//@   loop 1: invariant len(w) == \done && \done <= 3 && (refof(w) == 0 || refof(w) > \top0)
+//@   loop 1: invariant forall j in offof(w)..offof(w)+len(w) :: 0 <= raw(w)[j] && raw(w)[j] <= 8
+//@   loop 2: invariant 0 <= i && i <= len(ind) && i % 2 == 0 && len(ind) % 2 == 0 && (refof(ss) == 0 || refof(ss) > \top0)
+//@   loop 2: invariant forall j in offof(ss)..offof(ss)+len(ss) :: raw(ss)[j] != nil && raw(ss)[j] > \top0 && raw(ss)[j].Start + raw(ss)[j].Size <= 16777216 && raw(ss)[j].Size <= 16777216
+//@   loop 2: decreases len(ind) - i
+//@   loop 3: invariant 0 <= total && total <= \done * 16777216
+//@   loop 3: invariant forall j in offof(ss)..offof(ss)+len(ss) :: raw(ss)[j] != nil && raw(ss)[j].Size <= 16777216
+
+//@ func decodeXRefStream (xref, r, w, ss) (err)
+//@   tags C04 C05
+//@   requires xref != nil && r != nil && len(w) == 3 && forall i in 0..3 :: 0 <= w[i] && w[i] <= 8
+//@   requires forall k in 0..len(ss) :: ss[k] != nil && ss[k].Start + ss[k].Size <= 16777216
+//@   assigns mapof(xref), r.rdpos
+//@   ensures forall k int :: old(k in xref) && old(xref[k]) != nil ==> (k in xref) && xref[k] == old(xref[k])
+//@   loop 1: invariant wTotal == (\done >= 1 ? w[0] : 0) + (\done >= 2 ? w[1] : 0) + (\done >= 3 ? w[2] : 0)
+//@   loop 2: invariant forall k int :: old(k in xref) && old(xref[k]) != nil ==> (k in xref) && xref[k] == old(xref[k])
+//@   loop 3: invariant forall k int :: old(k in xref) && old(xref[k]) != nil ==> (k in xref) && xref[k] == old(xref[k])
+//@   loop 3: invariant sec.Start <= i && i <= sec.Start + sec.Size
+//@   loop 3: decreases sec.Start + sec.Size - i
+
+// ---- error handling policy while opening a file (C19): an error that is not a
+// malformed-file error (an I/O failure) always aborts, in every ErrorHandling mode ----
+//@ func NewReader$1 (err) (exit)
+//@   tags C19
+//@   requires opt != nil && r != nil
+//@   ensures err == nil ==> !exit
+//@   ensures err != nil && !malformed(err) ==> exit
+
+//@ func (*FileInfo).MakeReader$1 (err) (exit)
+//@   tags C19
+//@   requires opt != nil && r != nil
+//@   ensures err == nil ==> !exit
+//@   ensures err != nil && !malformed(err) ==> exit
+
+// ---- classic cross-reference sections (7.5.4): the first (= newest) entry for a number wins ----
+//@ func decodeXRefSection (xref, s, start, end) (err)
+//@   tags C04 C05 C19
+//@   requires s != nil && R(s) && xref != nil && start <= end && end <= 16777216
+//@   assigns s.filePos, s.pos, s.used, s.err, elems(s.buf), s.src.rdpos, mapof(xref)
+//@   ensures R(s) && scanFrame(s)
+//@   ensures (start != 1 || (old(0 in xref) && old(xref[0]) != nil)) ==> forall k int :: old(k in xref) && old(xref[k]) != nil ==> (k in xref) && xref[k] == old(xref[k])
+//@   ensures (start != 1 || (old(0 in xref) && old(xref[0]) != nil)) ==> forall k int :: (k in xref) && !old(k in xref) ==> start <= k && k < end
+//@   ensures forall k int :: (k in xref) && !old(k in xref) ==> start <= k + 1 && k < end
+//@   loop 1: invariant R(s) && scanFrame(s) && start <= i && i <= end && (offByOne == 0 || (offByOne == 1 && start == 1 && !(old(0 in xref) && old(xref[0]) != nil)))
+//@   loop 1: invariant (start != 1 || (old(0 in xref) && old(xref[0]) != nil)) ==> forall k int :: old(k in xref) && old(xref[k]) != nil ==> (k in xref) && xref[k] == old(xref[k])
+//@   loop 1: invariant (start != 1 || (old(0 in xref) && old(xref[0]) != nil)) ==> forall k int :: (k in xref) && !old(k in xref) ==> start <= k && k < i
+//@   loop 1: invariant forall k int :: (k in xref) && !old(k in xref) ==> start <= k + 1 && k < i
+//@   loop 1: decreases end - i
+
+// ---- writer bookkeeping (C02, C03) ----
+//@ func (*posWriter).Write (w, p) (n, err)
+//@   tags C02 C03 C19
+//@   requires w.w != nil
+//@   assigns w.pos, w.w.log
+//@   ensures 0 <= n && n <= len(p) && w.pos == old(w.pos) + n
+//@   ensures err == nil ==> n == len(p)
+//@   ensures len(w.w.log) == old(len(w.w.log)) + n
+//@   ensures forall k in old(len(w.w.log))..len(w.w.log) :: w.w.log[k] == p[k - old(len(w.w.log))]
+//@   ensures forall i in 0..old(len(w.w.log)) :: w.w.log[i] == old(w.w.log[i])
+
+//@ func (*Writer).Alloc (w) (r)
+//@   tags C02 C03 C11
+//@   panics-if w.nextRef >= 16777216
+//@   assigns w.nextRef
+//@   ensures r == old(w.nextRef) && w.nextRef == old(w.nextRef) + 1
+
+//@ func (*Writer).setXRef (w, ref, entry) (err)
+//@   tags C02 C03
+//@   requires w.xref != nil && ref % 4294967296 < 16777216
+//@   assigns w.nextRef, mapof(w.xref)
+//@   ensures (err != nil) == old((ref % 4294967296) in w.xref)
+//@   ensures err == nil ==> ((ref % 4294967296) in w.xref) && w.xref[ref % 4294967296] == entry && w.nextRef > ref % 4294967296 && w.nextRef >= old(w.nextRef)
+//@   ensures err != nil ==> w.nextRef == old(w.nextRef)
+//@   ensures forall k int :: k != ref % 4294967296 || err != nil ==> (k in w.xref) == old(k in w.xref) && w.xref[k] == old(w.xref[k])
+
+//@ func checkCompressed (refs, objects) (err)
+//@   tags C02 C03
+//@   pure
+//@   ensures err == nil ==> len(refs) == len(objects)
+//@   ensures err == nil ==> forall i in 0..len(refs) :: (refs[i] / 4294967296) % 65536 == 0
+//@   loop 1: invariant \done <= len(objects) && forall i in 0..\done :: (refs[i] / 4294967296) % 65536 == 0
+
+//@ func (*Writer).WriteCompressed (w, refs, objects) (err)
+//@   tags C02
+//@   requires w.xref != nil && w.w != nil
+//@   requires forall i in 0..len(refs) :: refs[i] % 4294967296 < 16777216
+//@   havoc .Format .Put
+//@   loop 1: invariant len(refs) == len(objects)
+//@   loop 2: invariant len(refs) == len(objects) && w.xref != nil
+//@   loop 3: invariant len(refs) == len(objects) && N == len(objects)
+
+//@ func (*Writer).OpenStream (w, ref, dict, filters) (sw, err)
+//@   trusted
+//@   assigns *
+//@   ensures err == nil ==> sw != nil
+
+//@ func (*encryptInfo).EncryptBytes (enc, ref, buf) (out, err)
+//@   trusted
+//@   assigns elems(buf)
+//@   ensures err == nil ==> (refof(out) == refof(buf) && offof(out) == offof(buf) && len(out) == len(buf)) || refof(out) > \top0
+
+// ---- strings: writing never modifies the caller's String (C02), buffer indices stay in range ----
+//@ func formatString (w, s, opt) (err)
+//@   tags C01 C02
+//@   requires w != nil && refof(w) != 0
+//@   assigns w.log
+//@   loop 3: invariant 0 <= used && used <= 8 && w != nil
+
+// ---- Copier (C11): node-level contracts ----
+//@ func (*Writer).Put (w, ref, obj) (err)
+//@   trusted
+//@   assigns w.all, mapof(w.xref), w.w.all, w.w.w.log
+//@   ensures w.w == old(w.w) && w.xref == old(w.xref) && w.w.w == old(w.w.w)
+
+//@ func Resolve (r, obj) (res, err)
+//@   trusted
+//@   assigns nothing
+
+//@ func IsReadError (err) (r)
+//@   trusted
+//@   pure
+//@   ensures r == (err != nil && !malformed(err))
+
+//@ func (Object).AsPDF (o, opt) (n)
+//@   trusted
+//@   pure
+
+//@ pred copierOK(c *Copier) = c.w != nil && c.trans != nil && c.w.xref != nil && c.w.w != nil
+//@ pred copierStable(c *Copier) = c.w == old(c.w) && c.trans == old(c.trans) && c.w.w == old(c.w.w) && c.w.w.w == old(c.w.w.w) && c.w.xref == old(c.w.xref)
+
+//@ func (*Copier).Copy (c, obj) (res, err)
+//@   tags C11
+//@   requires copierOK(c)
+//@   assigns mapof(c.trans), c.w.all, mapof(c.w.xref), c.w.w.all, c.w.w.w.log
+//@   ensures copierOK(c) && copierStable(c)
+//@   ensures err == nil ==> tagof(res) == tagof(obj)
+
+//@ func (*Copier).CopyArray (c, obj) (res, err)
+//@   tags C11
+//@   requires copierOK(c)
+//@   assigns mapof(c.trans), c.w.all, mapof(c.w.xref), c.w.w.all, c.w.w.w.log
+//@   ensures copierOK(c) && copierStable(c)
+//@   ensures err == nil ==> len(res) == len(obj)
+//@   ensures err == nil ==> (refof(res) == 0) == (refof(obj) == 0)
+//@   ensures err == nil ==> forall i in 0..len(obj) :: (obj[i] == nil ==> res[i] == nil)
+//@   loop 1: invariant copierOK(c) && copierStable(c) && len(res) == \done && (refof(res) == 0 || refof(res) > \top0)
+//@   loop 1: invariant forall j in offof(res)..offof(res)+len(res) :: (obj[j - offof(res)] == nil ==> raw(res)[j] == nil)
+
+//@ func (*Copier).copyStreamDict (c, src) (res, err)
+//@   trusted
+//@   assigns mapof(c.trans), c.w.all, mapof(c.w.xref), c.w.w.all, c.w.w.w.log
+//@   ensures copierOK(c) && copierStable(c)
+
+//@ func streamCryptRecipe (r, x) (recipe, err)
+//@   trusted
+//@   assigns nothing
+
+//@ func RawStreamReader (r, x) (rc, err)
+//@   trusted
+//@   assigns nothing
+//@   ensures err == nil ==> rc != nil
+
+//@ func (Dict).SortedKeys (d) (keys)
+//@   trusted
+//@   pure
+//@   fresh keys
+
+//@ func (*Copier).CopyDict (c, obj) (res, err)
+//@   tags C11
+//@   requires copierOK(c)
+//@   assigns mapof(c.trans), c.w.all, mapof(c.w.xref), c.w.w.all, c.w.w.w.log
+//@   ensures copierOK(c) && copierStable(c)
+//@   ensures err == nil ==> res != nil && res > \top0
+//@   loop 1: invariant copierOK(c) && copierStable(c) && res != nil && res > \top0
+
+//@ func (*Copier).CopyReference (c, obj) (res, err)
+//@   tags C11
+//@   requires copierOK(c)
+//@   assigns mapof(c.trans), c.w.all, mapof(c.w.xref), c.w.w.all, c.w.w.w.log
+//@   ensures copierOK(c) && copierStable(c)
+//@   ensures old(obj in c.trans) ==> err == nil && res == old(c.trans[obj]) && c.w.nextRef == old(c.w.nextRef)
